@@ -2113,6 +2113,9 @@ class ContractionTree:
                         "select": rng.choice(subtree_select),
                         "weight_pwr": rng.choice(subtree_weight_pwr),
                         "weight_what": rng.choice(subtree_weight_what),
+                        # each reconfiguration needs its own seed, else it
+                        # falls back to the global random number generator
+                        "seed": rng.randint(0, 2**32 - 1),
                     }
                     for _ in range(num_trees)
                 ]
